@@ -118,7 +118,17 @@ def make_setup(case):
     exact = (COMM[comm] == "float32" and pdt in ("float32", "bfloat16")) or (COMM[comm] == "bfloat16" and pdt == "bfloat16")
     # the default num_trainers_per_group=-1 means "the whole world is one group"
     g_arg = -1 if (Gs == W and rnd.random() < 0.5) else Gs
-    return {"G_arg": g_arg, "pdts": pdts, "groups": groups, "W": W, "G": Gs, "comm": comm, "communicate_params": cp, "cfg": cfg, "shapes": shapes, "T": T, "presence_kind": pk, "presence": pres, "grad_scale": gs, "exact": exact, "grad_kind": rnd.choice(["dense", "dense", "sparse"])}
+    # scheduler edits of param_groups between steps (same edits on every rank and in the serial twin); a separate stream so that
+    # the other draws of the setup are unchanged
+    rnd_e = rng_for(*case["seed"], "c06edits")
+    edits = []
+    for _ in range(rnd_e.choice([0, 0, 1, 2, 3])):
+        key = rnd_e.choice(["lr", "lr", "weight_decay", "momentum"])
+        if (key == "momentum" and cfg["momentum"] == 0.0) or (key == "weight_decay" and cfg["weight_decay"] == 0.0):
+            continue
+        val = {"lr": rnd_e.choice([0.5, 2.0, 0.0]) * cfg["lr"], "weight_decay": rnd_e.choice([0.0, 0.5, 2.0]) * cfg["weight_decay"], "momentum": rnd_e.choice([0.4, 0.7])}[key]
+        edits.append([rnd_e.randrange(1, T), rnd_e.randrange(len(groups) if groups else 1), key, val])
+    return {"edits": sorted(edits), "G_arg": g_arg, "pdts": pdts, "groups": groups, "W": W, "G": Gs, "comm": comm, "communicate_params": cp, "cfg": cfg, "shapes": shapes, "T": T, "presence_kind": pk, "presence": pres, "grad_scale": gs, "exact": exact, "grad_kind": rnd.choice(["dense", "dense", "sparse"])}
 
 
 def _grads(torch, G, S, seed, t):
@@ -171,6 +181,12 @@ def rank_program(ds, torch, S, seed, rank, world, with_twin):
         for p, g in zip(params, grads):
             p.grad = None if g is None else g.clone()
         hist["old"].append([p.detach().clone() for p in params])
+        for e in S.get("edits", []):
+            if e[0] == t:
+                opt.param_groups[e[1]][e[2]] = e[3]
+                if twin is not None:
+                    twin.param_groups[e[1]][e[2]] = e[3]
+                hist["edits_applied"] = hist.get("edits_applied", 0) + 1
         if twin is not None:
             if not S["exact"]:
                 with torch.no_grad():
@@ -343,6 +359,7 @@ def run_case(case):
         if len(results) != S["W"]:
             raise Inconclusive("a rank did not finish although no error or deadlock was recorded")
         counters["absent_params_checked"] += sum(h.get("absent_checked", 0) for h in results.values())
+        counters["schedule_edits_applied"] = counters.get("schedule_edits_applied", 0) + sum(h.get("edits_applied", 0) for h in results.values())
         d["_geometry"] = geo
         d["_known_hits"] = known_all
         try:
